@@ -162,7 +162,7 @@ pub fn run(args: &Args) -> i32 {
   let mut cfg = HistCfg {
     prop, max_roots: 2, bottom_up: true, bu_then: false, bu_pre: false, bu_over_report: false, bu_twice: false, set_fail: false, crashes: 0,
     depth: 0, state_cap: 0, probe: false, scope_in_key: true,
-    wall_cap: if quick { 45.0 } else { 2400.0 }, collect_digests: false, find_path_hash: None,
+    wall_cap: if quick { 45.0 } else { 2400.0 }, collect_digests: false, find_path_hash: None, stamp_fail: false,
   };
   let mut slice = Slice::Wf;
   let mut map_faulty = false;
@@ -211,11 +211,13 @@ pub fn run(args: &Args) -> i32 {
   match prop {
     Prop::C01 | Prop::C02 => { crash_group = true; }
     Prop::C03 | Prop::C04 => {
-      cfg.probe = prop == Prop::C03; cfg.bu_over_report = true; cfg.bu_then = true; cfg.bu_twice = true; cfg.bu_pre = !quick; cfg.max_roots = if quick { 1 } else { 2 };
+      cfg.probe = prop == Prop::C03; cfg.bu_over_report = true; cfg.bu_then = true; cfg.bu_twice = true; cfg.bu_pre = true; cfg.max_roots = if quick { 1 } else { 2 };
       if quick { groups[0].depth = 4; groups[1] = Group { enums: vec![s(3, 2, 2)], depth: 4, shapes: false, gen_consumer_only: false, crashes: 0, inject: false, max_roots: None, faulty: false, slice: None }; }
       // coarse read checkers next to exact ones on one task (a reported change that one checker ignores and another sees)
       groups.push(Group { enums: vec![rich(2, 2, 2)], depth: 5, shapes: false, gen_consumer_only: false, crashes: 0, inject: false, max_roots: None, faulty: false, slice: None });
       if !quick { groups.push(Group { enums: vec![s(2, 2, 5)], depth: 3, shapes: false, gen_consumer_only: true, crashes: 0, inject: false, max_roots: None, faulty: false, slice: None }); }
+      // three tasks, one resource: a task with two dependents of different kinds (requirer + dynamic requirer / reader)
+      groups.push(Group { enums: vec![{ let mut e = s(3, 1, 4); e.guard_vals = vec![1]; e.srcs = vec![Src::Acc]; e }], depth: if quick { 3 } else { 4 }, shapes: false, gen_consumer_only: false, crashes: 0, inject: false, max_roots: Some(2), faulty: false, slice: None });
       // coarse write checkers: only the checker-relative oracles apply there (no from-scratch content comparison)
       groups.push(Group { enums: vec![cw(2, 2, 4)], depth: 4, shapes: false, gen_consumer_only: true, crashes: 0, inject: false, max_roots: None, faulty: false, slice: None });
       groups.push(Group { enums: vec![if quick { nw(3, 1, 4) } else { nw(3, 1, 5) }], depth: 4, shapes: false, gen_consumer_only: false, crashes: 0, inject: false, max_roots: None, faulty: false, slice: None });
@@ -229,6 +231,9 @@ pub fn run(args: &Args) -> i32 {
       // injected violations: one new one-statement task added to every well-formed generator/consumer program
       groups.push(Group { enums: vec![s(2, 2, if quick { 3 } else { 4 })], depth: 4, shapes: true, gen_consumer_only: true, crashes: 0, inject: true, max_roots: None, faulty: false, slice: None });
       if prop == Prop::C05 || prop == Prop::C06 {
+        // declared writes whose stamp fails at declaration time (fault events SetFail): the violation must still abort
+        cfg.set_fail = true; cfg.stamp_fail = true;
+        groups.push(Group { enums: vec![{ let mut e = s(2, 2, 3); e.ocs = vec![OC::PieAlways]; e.write_decl = true; e.write_rcs = vec![RC::Faulty]; e.srcs = vec![Src::One]; e }], depth: if quick { 3 } else { 4 }, shapes: false, gen_consumer_only: false, crashes: 0, inject: false, max_roots: None, faulty: false, slice: None });
         // a task that reads a resource and also writes it, next to another reader / writer of that resource
         groups.push(Group { enums: vec![s(2, 2, 3)], depth: if quick { 3 } else { 5 }, shapes: false, gen_consumer_only: false, crashes: 0, inject: false, max_roots: None, faulty: false, slice: Some(Slice::WfOrViolOrSelfConflict) });
         groups.push(Group { enums: vec![{ let mut e = s(2, 2, 4); e.ocs = vec![OC::PieAlways]; e.guards = false; e }], depth: if quick { 3 } else { 4 }, shapes: false, gen_consumer_only: true, crashes: 0, inject: false, max_roots: None, faulty: false, slice: Some(Slice::WfOrViolOrSelfConflict) });
@@ -239,6 +244,7 @@ pub fn run(args: &Args) -> i32 {
       }
     }
     Prop::C08 => {
+      cfg.bu_pre = true; cfg.bu_twice = true; cfg.bu_then = true;
       // plus programs that declare several dependencies with different checkers on one target (recorded finding F2)
       slice = Slice::WfOrMulti;
       let mut e = EnumCfg::structural(if quick { 1 } else { 2 }, 1, if quick { 2 } else { 3 });
@@ -247,6 +253,7 @@ pub fn run(args: &Args) -> i32 {
       groups.push(Group { enums: vec![e], depth: if quick { 5 } else { 6 }, shapes: false, gen_consumer_only: false, crashes: 0, inject: false, max_roots: None, faulty: false, slice: None });
     }
     Prop::C09 => {
+      cfg.bu_pre = true; cfg.bu_twice = true; cfg.bu_then = true;
       let mut e = EnumCfg::structural(2, 2, if quick { 2 } else { 3 });
       e.ocs = vec![OC::Equals, OC::IsZero, OC::Always, OC::PieEquals];
       e.read_rcs = vec![RC::Exact, RC::Exists, RC::Always];
@@ -303,6 +310,8 @@ pub fn run(args: &Args) -> i32 {
     }).collect();
   }
   if let Ok(w) = std::env::var("VERIF_WALL") { if let Ok(w) = w.parse() { cfg.wall_cap = w; } }
+  // Cheap, targeted groups first; the big base group last (a wall cap under machine load then cuts the least).
+  if groups.len() > 1 { let first = groups.remove(0); groups.push(first); }
   let child_file = args.extra.iter().position(|a| a == "--digests-to").map(|pos| args.extra.get(pos + 1).cloned().unwrap_or_else(|| engine_error("--digests-to needs a file")));
   let mut stats = Stats::default();
   let mut all_programs: Vec<(Prog, Class)> = Vec::new();
@@ -389,7 +398,7 @@ fn replay(args: &Args, prop: Prop, file: &std::path::Path, mut rep: Report) -> i
   let class = classify(&prog);
   let cfg = HistCfg {
     prop, max_roots: 3, bottom_up: true, bu_then: true, bu_pre: true, bu_over_report: true, bu_twice: true, set_fail: true, crashes: 2, depth: path.len(),
-    state_cap: 0, probe: prop == Prop::C03, scope_in_key: true, wall_cap: 60.0, collect_digests: false, find_path_hash: None,
+    state_cap: 0, probe: prop == Prop::C03, scope_in_key: true, wall_cap: 60.0, collect_digests: false, find_path_hash: None, stamp_fail: false,
   };
   install();
   let crashes = path.iter().filter(|p| p.crash_at.is_some()).count();
